@@ -114,6 +114,19 @@ fn run_worker(page_pool: PagePool, command_rx: Receiver<IoPacket>) {
                     }
                 };
 
+                #[cfg(nomt_verif)]
+                if let IoKind::Write(fd, pn, _)
+                | IoKind::WriteArc(fd, pn, _)
+                | IoKind::WriteRaw(fd, pn, _) = command.kind
+                {
+                    crate::verif_hook::end(
+                        crate::verif_hook::Kind::Write,
+                        fd,
+                        pn * PAGE_SIZE as u64,
+                        PAGE_SIZE as u64,
+                        "io.complete",
+                    );
+                }
                 let complete = CompleteIo { command, result };
                 let _ = completion_sender.send(complete);
             }
